@@ -1,5 +1,264 @@
-import AlgoVerif.Model.C13
-/-! # C13 — property theorems (placeholder while the proofs are being written) -/
-open AlgoVerif AlgoVerif.C13
+import AlgoVerif.Proofs.C13Subset
+import AlgoVerif.Proofs.C13Union
+import AlgoVerif.Proofs.C13Star
+import AlgoVerif.Proofs.C13DfaOps
+import AlgoVerif.Proofs.C13SubsetTerm
+import AlgoVerif.Proofs.C13DfaTerm
+import AlgoVerif.Proofs.C13Min
+import AlgoVerif.Proofs.C13Concat
+import AlgoVerif.Proofs.C13CombineMap
+import AlgoVerif.Proofs.C13Refine
+import AlgoVerif.Proofs.C13Iso
+import AlgoVerif.Proofs.C13Minimal
+/-!
+# C13 — automata conversions and combinators compute the intended regular languages
 
-theorem C13_placeholder : (NFA.new 0 [1]).start = 0 := rfl
+Objects.  `NFA`/`DFA` are the Models of `automata/nfa.go` / `automata/dfa.go` (`Model/C13.lean`).
+`n.lang : List Int → Prop` is the *relational* language of an ε-NFA (`Spec.nfaLang` of the transition
+relation `n.Δ` the tables denote: some path spelling the word, ε-moves free, ends in a final state);
+`d.lang` is the run-based language of a partial DFA (`Spec.dfaLang`).  Union, concatenation and the
+Kleene star of languages are the textbook definitions in `Spec/C13.lean`, independent of automata.
+
+Standing hypotheses (each is a documented convention of the package, and every automaton built with
+`New…`/`Add` and non-negative ids satisfies them):
+* `WF` — the tables are key-sorted (what the Red-Black tables guarantee; `NFA.WF_new`, `NFA.WF_add`);
+* `E ∉ w` — "E is the empty string ε and is never a member of an input alphabet" (automata.go);
+* `DFA.Proper` — `-1` ("invalid state", returned by `Next`) is not used as a state id;
+  `DFA.NoEps` — a DFA has no transition labelled `E`.
+-/
+open AlgoVerif AlgoVerif.C13 AlgoVerif.C13.Spec
+
+/-- `NFA.Accept` always returns (the ε-closure loop never runs out of fuel, nothing panics) and
+decides the relational language. -/
+theorem C13_nfa_accept_spec (n : NFA) (w : Word) :
+    ∃ b, n.accept w = .ok b ∧ (b = true ↔ n.lang w) :=
+  n.accept_spec w
+
+example : (NFA.new 0 [1] |>.add 0 97 [1] |>.add 1 E [0]).accept [97, 97] = .ok true := by decide
+
+/-- `DFA.Accept` decides the run-based language of a DFA that does not use `-1` as a state. -/
+theorem C13_dfa_accept_spec (d : DFA) (hp : d.Proper) (w : Word) : d.accept w = true ↔ d.lang w :=
+  d.accept_spec hp w
+
+example : ((DFA.new 2 [4]).add 2 97 4).Proper := DFA.proper_of_properB (by decide)
+
+/-- `ToNFA` preserves the language. -/
+theorem C13_toNFA_accepts (d : DFA) (hwf : d.WF) (he : d.NoEps) (w : Word) : d.toNFA.lang w ↔ d.lang w :=
+  DFA.toNFA_lang hwf he w
+
+example : ((DFA.new 2 [4]).add 2 97 4 |>.add 4 98 2).NoEps ∧ ((DFA.new 2 [4]).add 2 97 4 |>.add 4 98 2).WF :=
+  ⟨DFA.noEps_of_noEpsB (by decide), DFA.WF_add (DFA.WF_add (DFA.WF_new _ _) _ _ _) _ _ _⟩
+
+/-- `Clone` preserves the language (NFA and DFA). -/
+theorem C13_clone_accepts_nfa (n : NFA) (hwf : n.WF) (w : Word) : n.clone.lang w ↔ n.lang w :=
+  NFA.clone_lang hwf w
+
+theorem C13_clone_accepts_dfa (d : DFA) (hwf : d.WF) (w : Word) : d.clone.lang w ↔ d.lang w :=
+  DFA.clone_lang hwf w
+
+example : ((NFA.new 0 [1]).add 0 97 [1, 0]).WF := NFA.WF_add (NFA.WF_new _ _) _ _ _
+
+/-- Subset construction: `ToDFA` always returns (the fuel `2^|Q| + 1` is never exhausted, because the
+queue holds pairwise distinct subsets of the state set; nothing panics) and the DFA accepts exactly the
+NFA's language. -/
+theorem C13_toDFA_accepts (n : NFA) (w : Word) (hE : E ∉ w) :
+    ∃ d, n.toDFA = .ok d ∧ (d.lang w ↔ n.lang w) := by
+  obtain ⟨d, hd⟩ := n.toDFA_ok
+  exact ⟨d, hd, n.toDFA_lang d hd w hE⟩
+
+/-- Termination of the subset construction, stated on the loop: with any fuel `≥ 2^|Q|` the loop returns. -/
+theorem C13_toDFA_terminates (n : NFA) (fuel : Nat) (hf : 2 ^ n.states.length ≤ fuel) (S0 : List Int)
+    (h0 : n.εClosure (mkSet [n.start]) = .ok S0) :
+    ∃ r, subsetLoop n n.symbols fuel [S0] 0 (DFA.new 0 []) = .ok r := by
+  apply subsetLoop_ok n n.symbols fuel [S0] 0 _ _ (by omega)
+  refine ⟨by simp, ?_⟩
+  intro S hS; simp at hS; subst hS
+  refine ⟨n.εClosure_sorted _ _ h0 (ssorted_mkSet _), n.closure_subset_states _ _ h0 ?_⟩
+  intro x hx; simp at hx; subst hx
+  exact n.mem_states_of _ (Or.inl rfl)
+
+example : (NFA.new 0 [1] |>.add 0 97 [0, 1] |>.add 0 E [1]).toDFA.isOk = true := by decide
+
+/-- `Union` accepts exactly the union of the operand languages. -/
+theorem C13_union_lang (nfas : List NFA) (hwf : ∀ n ∈ nfas, n.WF) (w : Word) (hE : E ∉ w) :
+    (NFA.union nfas).lang w ↔ Lang.unionAll (nfas.map NFA.lang) w := by
+  rw [NFA.union_lang nfas hwf w hE]
+  constructor
+  · rintro ⟨n, h1, h2⟩; exact ⟨n.lang, List.mem_map.2 ⟨n, h1, rfl⟩, h2⟩
+  · rintro ⟨L, hL, h2⟩
+    obtain ⟨n, h1, rfl⟩ := List.mem_map.1 hL
+    exact ⟨n, h1, h2⟩
+
+example : Lang.unionAll [(NFA.new 0 [1] |>.add 0 97 [1]).lang, (NFA.new 3 [3]).lang] [] :=
+  ⟨(NFA.new 3 [3]).lang, by simp, 3, by decide, Path.eps (EReach.refl _)⟩
+
+/-- `Star` accepts exactly the Kleene closure of the operand language. -/
+theorem C13_star_lang (n : NFA) (hwf : n.WF) (w : Word) (hE : E ∉ w) :
+    n.star.lang w ↔ Lang.star n.lang w :=
+  n.star_lang hwf w hE
+
+example : (NFA.new 4 [6] |>.add 4 97 [6]).star.accept [97, 97, 97] = .ok true := by decide
+
+/-- `EliminateDeadStates` always returns (the DFS never exhausts its fuel) and preserves the language. -/
+theorem C13_elimDead_accepts (d : DFA) (hwf : d.WF) (hp : d.Proper) (w : Word) :
+    ∃ d', d.elimDead = .ok d' ∧ (d'.lang w ↔ d.lang w) := by
+  obtain ⟨d', hd'⟩ := d.elimDead_ok
+  exact ⟨d', hd', d.elimDead_lang d' hwf hp hd' w⟩
+
+example : ((DFA.new 0 [1]).add 0 97 1 |>.add 0 98 2 |>.add 2 97 2).elimDead
+    = .ok ((DFA.new 0 [1]).add 0 97 1) := by decide
+
+/-- `ReindexStates` always returns (the BFS never exhausts its fuel) and preserves the language. -/
+theorem C13_reindex_accepts (d : DFA) (hwf : d.WF) (w : Word) :
+    ∃ d', d.reindex = .ok d' ∧ (d'.lang w ↔ d.lang w) := by
+  obtain ⟨d', hd'⟩ := d.reindex_ok
+  exact ⟨d', hd', d.reindex_lang d' hwf hd' w⟩
+
+example : ((DFA.new 5 [9]).add 5 97 9 |>.add 9 98 5).reindex = .ok ((DFA.new 0 [1]).add 0 97 1 |>.add 1 98 0) := by
+  decide
+
+/-- `Concat` (as fixed: D20) accepts exactly the concatenation of the operand languages — for every
+word, any number of operands, operands whose start state is accepting or has incoming edges included. -/
+theorem C13_concat_lang (nfas : List NFA) (hwf : ∀ n ∈ nfas, n.WF) (w : Word) :
+    (NFA.concat nfas).lang w ↔ Lang.concatAll (nfas.map NFA.lang) w :=
+  NFA.concat_lang nfas hwf w
+
+/-- the D20 witnesses on the Model of the fixed code: `a*·b` accepts `b`, `ab*·c(dc)*` rejects `acdbc` -/
+example : (NFA.concat [NFA.new 0 [0] |>.add 0 97 [0], NFA.new 0 [1] |>.add 0 98 [1]]).accept [98] = .ok true := by
+  decide
+example : (NFA.concat [NFA.new 0 [1] |>.add 0 97 [1] |>.add 1 98 [1],
+    NFA.new 0 [1] |>.add 0 99 [1] |>.add 1 100 [0]]).accept [97, 99, 100, 98, 99] = .ok false := by
+  decide
+
+/-
+Full statement (not yet proved):
+
+  theorem C13_minimize_accepts (d : DFA) (hwf : d.WF) (hfs : SSorted d.final) (w : Word) :
+      ∃ d', d.minimize = .ok d' ∧ (d'.lang w ↔ d.lang w)
+
+Proved below: whenever `Minimize` returns, the result accepts the same language — the refinement loop
+keeps a partition of the states into disjoint sorted groups that never mix accepting and non-accepting
+states (`PInv`), the exit test `Πnew.Equal(Π)` makes every group uniform with respect to the signatures
+`BuildGroupTrans` computes (`stable_of_exit`), and the quotient by such a partition preserves the
+language (`buildMin_lang`).  Missing: that the loop exits within its fuel `|Q| + 3` (each unsuccessful
+round splits a group, but the counting argument is not formalised).  `SSorted d.final` holds for every
+DFA made by `NewDFA` (`ssorted_mkSet`).
+-/
+theorem C13_minimize_accepts_partial (d d' : DFA) (hwf : d.WF) (hfs : SSorted d.final)
+    (h : d.minimize = .ok d') (w : Word) : d'.lang w ↔ d.lang w :=
+  d.minimize_lang d' hwf hfs h w
+
+example : ((DFA.new 0 [2, 3]).add 0 97 1 |>.add 0 98 1 |>.add 1 97 2 |>.add 1 98 3).minimize
+    = .ok ((DFA.new 0 [2]).add 0 97 1 |>.add 0 98 1 |>.add 1 97 2 |>.add 1 98 2) := by decide
+
+/-- Step 4 of `Minimize` on its own: the quotient of a DFA by ANY stable partition accepts the same language. -/
+theorem C13_minimize_quotient (d : DFA) (hwf : d.WF) (P : Partition) (hs : Stable d P) (w : Word) :
+    (buildMin d P).lang w ↔ d.lang w :=
+  buildMin_lang d hwf P hs w
+
+/-- non-vacuity: a stable partition of a four-state DFA into three groups -/
+example : Stable ((DFA.new 0 [2, 3]).add 0 97 1 |>.add 0 98 1 |>.add 1 97 2 |>.add 1 98 3)
+    ⟨[([0], 0), ([1], 1), ([2, 3], 2)], 3⟩ :=
+  stable_of_stableB _ (DFA.WF_add (DFA.WF_add (DFA.WF_add (DFA.WF_add (DFA.WF_new _ _) _ _ _) _ _ _) _ _ _) _ _ _) _ (by decide)
+
+/-- `CombineDFA` always returns, accepts the union of the operand languages, and its final-state map
+tells, for each operand, exactly the states in which that operand accepts: after reading `w` the
+combined DFA is in a state listed in `fm[i]` iff operand `i` accepts `w`. -/
+theorem C13_combine_lang (ds : List DFA) (hwf : ∀ d ∈ ds, d.WF) (hne : ∀ d ∈ ds, d.NoEps) (w : Word) (hE : E ∉ w) :
+    ∃ D fm, combineDFA ds = .ok (D, fm) ∧ (D.lang w ↔ ∃ d ∈ ds, d.lang w) := by
+  obtain ⟨⟨D, fm⟩, h⟩ := combineDFA_ok ds
+  exact ⟨D, fm, h, combineDFA_lang ds hwf hne D fm h w hE⟩
+
+theorem C13_combine_finalMap (ds : List DFA) (hwf : ∀ d ∈ ds, d.WF) (hne : ∀ d ∈ ds, d.NoEps)
+    (D : DFA) (fm : List (List Int)) (h : combineDFA ds = .ok (D, fm)) (w : Word) (hE : E ∉ w) :
+    fm.length = ds.length ∧
+    ∀ (i : Nat) (d : DFA), ds[i]? = some d → ∃ l : List Int, fm[i]? = some l ∧
+      ∀ q, dfaRun D.δ (some D.start) w = some q → (q ∈ l ↔ d.lang w) :=
+  combineDFA_finalMap ds hwf hne D fm h w hE
+
+example : combineDFA [(DFA.new 0 [1]).add 0 97 1, (DFA.new 4 [4]).add 4 98 4]
+    = .ok ((DFA.new 0 [0, 1, 2]).add 0 97 1 |>.add 0 98 2 |>.add 2 98 2, [[1], [0, 2]]) := by decide
+
+/-
+Full statement (not yet proved):
+
+  theorem C13_minimize_minimal (d d' : DFA) (hwf : d.WF) (hfs : SSorted d.final)
+      (hreach : every state of d is reachable from d.start) (hlive : every state of d reaches a final state)
+      (h : d.minimize = .ok d') (δ2 …) (Q2 …) (same language) : d'.states.length ≤ Q2.length
+
+Proved below: the Myhill–Nerode half, for partial DFAs — a DFA whose states are all reachable, all live
+and pairwise distinguishable has no more states than ANY (partial) DFA for the same language.
+Missing: that the states of `Minimize`'s result are pairwise distinguishable (every split of the
+refinement loop is witnessed by a word; needs the no-dead-state hypothesis for splits on a missing
+transition) and reachable/live when the input's are.  The harness checks the state count of every
+`Minimize` result against a table-filling minimum (all 2-state NFAs through ToDFA exhaustively).
+-/
+theorem C13_minimize_minimal_partial
+    (δ : Int → Int → Option Int) (start : Int) (final : Int → Prop) (Q : List Int) (hnd : Q.Nodup)
+    (hreach : ∀ q ∈ Q, ∃ u, dfaRun δ (some start) u = some q)
+    (hlive : ∀ q ∈ Q, ∃ v, accFrom δ final q v)
+    (hdist : ∀ p ∈ Q, ∀ q ∈ Q, p ≠ q → ∃ v, ¬ (accFrom δ final p v ↔ accFrom δ final q v))
+    (δ2 : Int → Int → Option Int) (start2 : Int) (final2 : Int → Prop) (Q2 : List Int)
+    (hQ2 : ∀ u t, dfaRun δ2 (some start2) u = some t → t ∈ Q2)
+    (hlang : ∀ w, dfaLang δ start final w ↔ dfaLang δ2 start2 final2 w) :
+    Q.length ≤ Q2.length :=
+  minimal_of_distinguishable δ start final Q hnd hreach hlive hdist δ2 start2 final2 Q2 hQ2 hlang
+
+/-- non-vacuity: the two states of the DFA for `a(aa)*` are reachable, live and distinguishable -/
+example : let d := ((DFA.new 0 [1]).add 0 97 1 |>.add 1 97 0)
+    (∀ q ∈ [(0 : Int), 1], ∃ u, dfaRun d.δ (some 0) u = some q) ∧
+    (∀ q ∈ [(0 : Int), 1], ∃ v, accFrom d.δ (fun f => f ∈ d.final) q v) := by
+  refine ⟨?_, ?_⟩
+  · intro q hq; simp at hq; rcases hq with rfl | rfl
+    · exact ⟨[], rfl⟩
+    · exact ⟨[97], by decide⟩
+  · intro q hq; simp at hq; rcases hq with rfl | rfl
+    · exact ⟨[97], 1, by decide, by decide⟩
+    · exact ⟨[], 1, rfl, by decide⟩
+
+/-
+Full statement (not yet proved):
+
+  theorem C13_isomorphic_renamed (n : NFA) (hwf : n.WF) (sorted sets) (f : Int → Int)
+      (hf : f is injective on n.states) : n.isomorphic (n.permuted f) = .ok true      -- and likewise for DFAs
+
+Proved below (for NFAs and DFAs): `Isomorphic` (as fixed: D21) never reads a slice out of range when the two
+degree sequences have the same length — `degreesAgree` is total there — and it answers `true` whenever its
+pre-checks pass and the renaming "i-th smallest state of the receiver ↦ i-th smallest state of the
+argument" (the first arrangement `generatePermutations` yields; the D21 witness {0,1} ↦ {5,7} is of this
+kind) turns the receiver into the argument.  Missing: that the pre-checks (numbers of states and final
+states, alphabet, sorted degree sequence) are invariant under renaming, that `generatePermutations`
+enumerates every arrangement, and that the renamed copy is `Equal` to the permuted automaton.  The harness
+checks `Isomorphic` on copies renamed by random bijections, and the swapped copy of every 2-state NFA.
+-/
+theorem C13_isomorphic_renamed_partial (n rhs : NFA)
+    (h1 : n.final.length = rhs.final.length) (h2 : n.states.length = rhs.states.length)
+    (h3 : setEq n.symbols rhs.symbols = true)
+    (h4 : degreesAgree n.sortedDegrees rhs.sortedDegrees = some true)
+    (hne : rhs.states.isEmpty = false)
+    (heq : (n.permuted (bij n.states rhs.states)).equal rhs = true) :
+    n.isomorphic rhs = .ok true :=
+  n.isomorphic_of_sorted_renaming rhs h1 h2 h3 h4 hne heq
+
+theorem C13_isomorphic_renamed_dfa_partial (d rhs : DFA)
+    (h1 : d.final.length = rhs.final.length) (h2 : d.states.length = rhs.states.length)
+    (h3 : setEq d.symbols rhs.symbols = true)
+    (h4 : degreesAgree d.sortedDegrees rhs.sortedDegrees = some true)
+    (hne : rhs.states.isEmpty = false)
+    (heq : (d.permuted (bij d.states rhs.states)).equal rhs = true) :
+    d.isomorphic rhs = .ok true :=
+  d.isomorphic_of_sorted_renaming rhs h1 h2 h3 h4 hne heq
+
+/-- non-vacuity: the hypotheses hold for the D21 witness (states {0,1} against {5,7}) -/
+example : let n := (NFA.new 0 [1]).add 0 97 [1]; let rhs := (NFA.new 5 [7]).add 5 97 [7]
+    n.final.length = rhs.final.length ∧ n.states.length = rhs.states.length ∧ setEq n.symbols rhs.symbols = true ∧
+    degreesAgree n.sortedDegrees rhs.sortedDegrees = some true ∧ rhs.states.isEmpty = false ∧
+    (n.permuted (bij n.states rhs.states)).equal rhs = true := by decide
+
+/-- the D21 witnesses on the Model of the fixed code: states {0,1} against {5,7}; a swapped copy (not
+order-preserving); automata whose degree sequences the old code made of different lengths -/
+example : ((DFA.new 0 [1]).add 0 97 1).isomorphic ((DFA.new 5 [7]).add 5 97 7) = .ok true := by decide
+example : ((NFA.new 3 [5]).add 3 97 [3, 5] |>.add 5 E [3]).isomorphic
+    ((NFA.new 5 [3]).add 5 97 [5, 3] |>.add 3 E [5]) = .ok true := by decide
+example : ((DFA.new 0 [1, 2]).add 0 97 1 |>.add 1 97 0).isomorphic ((DFA.new 0 [1, 2]).add 0 97 0) = .ok false := by
+  decide
